@@ -652,3 +652,6 @@ func (l *link) responseComplete(method string) (complete bool, status int) {
 	}
 	return true, resp.StatusCode
 }
+
+// Committed400 reports whether the handler chain itself committed a 400.
+func (cn *Conn) Committed400() bool { return cn.Committed && cn.status == 400 }
